@@ -17,23 +17,70 @@ import (
 type modgraphCase struct {
 	ID      int                 `json:"id"`
 	Imports map[string][]string `json:"imports"`
+	Rename  map[string]string   `json:"rename"` // model module name -> name in the module map (path-like aliases of one another)
 }
 
-func bodyFor(imps []string, export bool) string {
+// every module exports its own (model) name and the values its imports yielded, so that the value of an
+// import expression identifies the module that was really compiled and run for it
+func bodyFor(me string, imps []string, export bool, real func(string) string) string {
 	var sb strings.Builder
 	for i, m := range imps {
-		fmt.Fprintf(&sb, "x%d := import(%q)\n", i, m)
+		fmt.Fprintf(&sb, "x%d := import(%q)\n", i, real(m))
 	}
 	if export {
-		sb.WriteString("export 1\n")
+		fmt.Fprintf(&sb, "export {me: %q, deps: [", me)
+		for i := range imps {
+			if i > 0 {
+				sb.WriteString(", ")
+			}
+			fmt.Fprintf(&sb, "x%d", i)
+		}
+		sb.WriteString("]}\n")
 	}
 	return sb.String()
+}
+
+// checkTree: the value an import of module m yielded must be {me: m, deps: [values of m's imports]}
+func checkTree(o tengo.Object, m string, imports map[string][]string, depth int) string {
+	im, ok := o.(*tengo.ImmutableMap)
+	if !ok {
+		return fmt.Sprintf("import of %s yielded %s, not an immutable map", m, o.TypeName())
+	}
+	me, _ := im.Value["me"].(*tengo.String)
+	if me == nil || me.Value != m {
+		return fmt.Sprintf("import of %s yielded the export of %v", m, im.Value["me"])
+	}
+	var deps []tengo.Object
+	switch d := im.Value["deps"].(type) {
+	case *tengo.ImmutableArray:
+		deps = d.Value
+	case *tengo.Array:
+		deps = d.Value
+	}
+	if len(deps) != len(imports[m]) {
+		return fmt.Sprintf("module %s saw %d imports, expected %d", m, len(deps), len(imports[m]))
+	}
+	if depth > 6 {
+		return ""
+	}
+	for i, d := range deps {
+		if w := checkTree(d, imports[m][i], imports, depth+1); w != "" {
+			return w
+		}
+	}
+	return ""
 }
 
 func modgraphHandle(raw []byte) map[string]interface{} {
 	var c modgraphCase
 	if err := json.Unmarshal(raw, &c); err != nil {
 		return map[string]interface{}{"error": err.Error()}
+	}
+	real := func(m string) string {
+		if r, ok := c.Rename[m]; ok {
+			return r
+		}
+		return m
 	}
 	mm := tengo.NewModuleMap()
 	names := make([]string, 0)
@@ -42,10 +89,10 @@ func modgraphHandle(raw []byte) map[string]interface{} {
 			continue
 		}
 		names = append(names, n)
-		mm.AddSourceModule(n, []byte(bodyFor(imps, true)))
+		mm.AddSourceModule(real(n), []byte(bodyFor(n, imps, true, real)))
 	}
 	sort.Strings(names)
-	s := tengo.NewScript([]byte(bodyFor(c.Imports["main"], false)))
+	s := tengo.NewScript([]byte(bodyFor("main", c.Imports["main"], false, real)))
 	s.SetImports(mm)
 	res := map[string]interface{}{}
 	var comp *tengo.Compiled
@@ -74,17 +121,35 @@ func modgraphHandle(raw []byte) map[string]interface{} {
 	}
 	res["result"] = "ok"
 	counts := map[string]int{}
+	byReal := map[string]string{}
 	for _, n := range names {
 		counts[n] = 0
+		byReal[real(n)] = n
 	}
 	for _, f := range comp.VerifBytecode().FileSet.Files {
 		if f.Name != "(main)" {
-			counts[f.Name]++
+			if m, ok := byReal[f.Name]; ok {
+				counts[m]++
+			} else {
+				counts["?"+f.Name]++
+			}
 		}
 	}
 	res["compiles"] = counts
 	if e := comp.Run(); e != nil {
 		res["run_error"] = e.Error()
+		return res
+	}
+	for i, m := range c.Imports["main"] {
+		v := comp.Get(fmt.Sprintf("x%d", i))
+		if v == nil || v.Object() == nil {
+			res["wrong_module"] = fmt.Sprintf("x%d is not set", i)
+			break
+		}
+		if w := checkTree(v.Object(), m, c.Imports, 0); w != "" {
+			res["wrong_module"] = w
+			break
+		}
 	}
 	return res
 }
